@@ -107,7 +107,13 @@ func c19History(e *core.Env, r *core.Rand, idx int64) {
 		dir := filepath.Join(root, dirs[r.Intn(len(dirs))])
 		_ = os.MkdirAll(dir, 0755)
 		// few base names over several directories: different targets often share their base name
-		name := r.Pick("times.klg", "b c.klg", "é.klg", "x'y.klg")
+		name := r.Pick("times.klg", "b c.klg", "é.klg", "x'y.klg", "times.klg", "log[1].klg", "a*.klg", "t?.klg")
+		if decoy, isPattern := map[string]string{"log[1].klg": "log1.klg", "a*.klg": "abc.klg", "t?.klg": "tx.klg"}[name]; isPattern {
+			// a file name is a name, not a pattern: next to it lies a file that the name, read as a pattern, would match
+			if _, err := os.Stat(filepath.Join(dir, decoy)); err != nil {
+				_ = os.WriteFile(filepath.Join(dir, decoy), []byte("2020-01-01\n    7777m\n"), 0644)
+			}
+		}
 		abs := filepath.Join(dir, name)
 		if _, err := os.Stat(abs); err == nil {
 			name = fmt.Sprintf("t%d %s", t, name)
